@@ -170,6 +170,27 @@ impl<L: LangExt, N: Analysis<L> + 'static> Run<L, N> where N::Data: std::fmt::De
         format!(",\"extract\":{{\"cf\":{},\"cost\":{},\"term\":{},\"lookup_some\":{},\"lookup_eq\":{}}}", jstr(name), cost, self.show_rec(&re), lk.is_some(),
             match &lk { Some(a) => self.eg.eq(a, h).to_string(), None => "null".to_string() })
     }
+    fn mmatch(&self, text: &str, parts: &[(String, String)]) -> String {
+        let Some(eg0) = (&self.eg as &dyn std::any::Any).downcast_ref::<EGraph<L, ()>>() else { return ",\"mmatch\":null".to_string() };
+        let mp = MultiPattern::<L>::parse(text).expect("multipattern text");
+        let before = (eg0.progress().number_of_classes, eg0.progress().number_of_live_classes, eg0.progress().sum_of_slots, eg0.progress().sum_of_symmetries, eg0.total_number_of_nodes());
+        let ms = multi_ematch(&mp, eg0);
+        let after = (eg0.progress().number_of_classes, eg0.progress().number_of_live_classes, eg0.progress().sum_of_slots, eg0.progress().sum_of_symmetries, eg0.total_number_of_nodes());
+        let mut items: Vec<String> = Vec::new();
+        for sub in &ms {
+            let mut bound: Vec<String> = sub.keys().cloned().collect(); bound.sort();
+            let mut holds = Vec::new();
+            for (v, ptxt) in parts {
+                let pat = Pattern::<L>::parse(ptxt).expect("pattern");
+                let inst = self.lookup_pattern(&pat, sub);
+                let lhs = sub.get(&v[1..]);
+                holds.push(match (inst, lhs) { (Some(i), Some(l)) => self.eg.eq(&i, l), _ => false }.to_string());
+            }
+            items.push(format!("{{\"bound\":[{}],\"equations_hold\":[{}]}}", bound.iter().map(|x| jstr(x)).collect::<Vec<_>>().join(","), holds.join(",")));
+        }
+        items.sort();
+        format!(",\"mmatch\":{{\"matches\":[{}],\"unchanged\":{}}}", items.join(","), before == after)
+    }
     fn group_count(&self, id: Id) -> usize {
         // number of permutations pi of the class's slots with eq(identity invocation, permuted invocation): public API only
         let slots: Vec<Slot> = self.eg.slots(id).iter().cloned().collect();
@@ -300,6 +321,19 @@ fn run_history<L: LangExt, N: Analysis<L> + Default + 'static>(names: Vec<u32>, 
                             bound.iter().map(|x| jstr(x)).collect::<Vec<_>>().join(","), inst.is_some(), match &inst { Some(i) => r.describe(i), None => "null".to_string() }));
                     }
                     extra = format!(",\"ematch\":{{\"unchanged\":{},\"matches\":[{}]}}", before == after, items.join(","));
+                }
+                "mmatch" => {
+                    // mmatch ?v | node-pattern ; ?v | node-pattern ...
+                    let rest = line["mmatch".len()..].to_string();
+                    let mut parts: Vec<(String, String)> = Vec::new();
+                    for part in rest.split(';') {
+                        let f: Vec<&str> = part.split('|').collect();
+                        if f.len() != 2 { continue; }
+                        let pt = tokenize(f[1]); let mut p1 = 0;
+                        parts.push((f[0].trim().to_string(), r.pat_text(&pt, &mut p1)));
+                    }
+                    let text = parts.iter().map(|(v, p)| format!("{} == {}", v, p)).collect::<Vec<_>>().join(", ");
+                    extra = r.mmatch(&text, &parts);
                 }
                 "extract" => {
                     let mut p = 2; let t = parse_term(&toks, &mut p);
